@@ -138,6 +138,30 @@ Extensions used by unit Repack (hrepack's option parser; each one only takes eff
   * opts['poison_locals']: local arrays start with the poison value 170 in every cell (indeterminate in C) instead of 0, so that a function
     that relies on zero-initialised stack memory breaks its refinement theorem.
   * the functions of this unit `return NULL` on rejection (no `exit`): `retnull = true`, `done = true`; `printf` is in opts['ignore_calls'].
+Options used by the bit-I/O layer (unit Hbitio2; all opt-in, the other units do not change):
+  * opts['struct_locals'] = [names]: a struct-pointer LOCAL that the function obtains by a table lookup (`rec = HAatom_object(id)`) is
+    treated like a struct parameter: its members are entry parameters `<name>_<member>` (listed after the C parameters), the lookup
+    assignment itself is not translated, `<name> == NULL` is the entry parameter `<name>_null` (trusted base: the lookup returns that record);
+  * opts['cursors'] = {member field: region field}: a pointer MEMBER that moves inside the buffer another member points to
+    (`rec->bytep`, `rec->bytez` inside `rec->bytea`) is an `Int` index into that region (`*rec->bytep++`, `++rec->bytep == rec->bytez`,
+    `rec->bytez - rec->bytea`, `rec->bytez = n + (rec->bytep = rec->bytea)`);
+  * compound assignments used as values (`x << (rec->count -= n)`): value = the new value of the left side, the store is a pending effect;
+  * opts['io'] kinds `eread` / `ewrite` / `eseek`: Hread / Hwrite / Hseek on ONE random-access element `io_elt : List Int` with position
+    `io_epos` and flag `io_enew` (1 = created by Hstartwrite, nothing written yet): Hread fails on a new element, otherwise delivers
+    min(n, bytes left) bytes (n = 0: all bytes left; 0 bytes at the end is NOT a failure); Hwrite overwrites / extends at the position and
+    never fails (appendable element); Hseek(DF_START) to an offset >= 0 always succeeds.  These are exactly `hRead/hWrite/hSeek` of the
+    hand model lean/H4/BitIO.lean;
+  * opts['variants'] = {new name: {"of": C function, options…}}: a second translation of the same C text under another name;
+    opts['trap_calls'] = [callee names]: such a call is not followed, REACHING it sets `ub` (a refinement theorem with `ub = false` proves
+    the call is never reached on the inputs it covers); opts['call_map'] = {callee: variant}: calls of `callee` run the variant.  Together
+    they cut a cycle of the static call graph that the executions never close (Hbitwrite -> HIread2write -> Hbitseek -> HIbitflush -> Hbitwrite);
+  * a callee whose record is a `struct_local` receives the caller's record of the same name (the id it looks up is the id of that record:
+    trusted base) and `<name>_null = false`;
+  * opts['segments']: when the function body has top-level statements that hold a loop or a call of a translated function, the runs of
+    statements before / between / after them are definitions of their own (`f.seg0`, `f.seg1`, …, each a state transformer; such a statement is a segment by itself)
+    and `f` is their composition - only a presentation of the same statement list, so that theorems can be stated per segment;
+  * opts['const_narrowing']: a conversion to `int`/`int32` of a term that does not depend on the state (`(int32)LONG_MIN`, `(int)DATANUM`)
+    is the exact two's-complement reduction (gcc's implementation-defined behaviour); state-dependent ones stay under "value representable".
 
 Everything outside the supported subset makes the translator FAIL loudly (it never guesses): goto, switch, calls other
 than memcpy and the names in opts['ignore_calls'] (error reporting that does not touch the modelled state),
@@ -237,7 +261,9 @@ class Eff:
 class Fn:
     def __init__(self, ast, unit, opts):
         self.ast, self.unit, self.opts = ast, unit, opts
-        self.name = ast["name"]
+        self.name = opts.get("_name") or ast["name"]
+        self.struct_locals = set(opts.get("struct_locals", []))
+        self.bcursors = dict(opts.get("cursors", {}))     # pointer member field -> region field it moves in (unit Hbitio2)
         self.scalars = []        # Int fields
         self.bools = []          # Bool fields that are inputs (`_null`)
         self.regions = []        # List Int fields
@@ -345,6 +371,9 @@ class Fn:
             # wrap-around on every supported target)
             m = 2 ** tb
             return "(((%s) + %d) %% %d - %d)" % (term, m // 2, m, m // 2)
+        if self.opts.get("const_narrowing") and fb > tb and not re.search(r"\bs\.", term):
+            m = 2 ** tb
+            return "(((%s) + %d) %% %d - %d)" % (term, m // 2, m, m // 2)
         return term      # assumption: value representable (no signed overflow)
 
     # ---------------------------------------------------------------- pointer expressions -> (region, index term, checks, effects)
@@ -401,6 +430,9 @@ class Fn:
                 r, bi, c, e = self.pexpr(b_["inner"][0])
                 it, ic, ie = self.rvalue(b_["inner"][1])
                 return (r, "(%s * %d)" % (it, k_) if bi == "0" else "(%s + %s * %d)" % (bi, it, k_), c + ic, e + ie)
+        if k == "MemberExpr" and self.cursor_of(n) is not None:
+            cur = self.cursor_of(n)
+            return (cur[1], "s.%s" % cur[0], [], [])
         if k == "MemberExpr":
             cur_ = self.member_cursor(n)
             if cur_ is not None:
@@ -464,6 +496,14 @@ class Fn:
                 fail("%s: address of a scalar" % self.name)
             # &a[i] itself is not an access (one-past-the-end is legal); the access through it is checked
             return (lv[1], lv[2], lv[3][:-1], lv[4])
+        if k == "UnaryOperator" and n["opcode"] in ("++", "--") and self.skip(n["inner"][0]).get("kind") == "MemberExpr" and self.cursor_of(self.skip(n["inner"][0])) is not None:
+            fld, reg = self.cursor_of(self.skip(n["inner"][0]))
+            i = "s.%s" % fld
+            new = "(%s %s 1)" % (i, "+" if n["opcode"] == "++" else "-")
+            eff = Eff(("scalar", fld), new, fld)
+            if n.get("isPostfix"):
+                return (reg, i, [], [eff])
+            return (reg, new, [], [eff])
         if k == "UnaryOperator" and n["opcode"] in ("++", "--") and self.skip(n["inner"][0]).get("kind") == "DeclRefExpr" \
                 and self.skip(n["inner"][0])["referencedDecl"]["name"] in self.cursors:
             # a cursor over an array of structs moves by one element: its index field changes by one
@@ -552,6 +592,21 @@ class Fn:
         if blk is None:
             return None
         return lname("%s_%s" % (p, blk)), lname("%s_%s" % (p, nm_)), p
+
+    def cursor_of(self, m):
+        """(index field, region field) when the member expression `m` is a pointer member listed in opts['cursors'], else None"""
+        if not self.bcursors or m.get("kind") != "MemberExpr":
+            return None
+        p, path = self.member_chain(m)
+        if p is None:
+            return None
+        fld = lname("%s_%s" % (p, "_".join(path)))
+        if fld not in self.bcursors:
+            return None
+        reg = self.owned(p, self.region, self.bcursors[fld])
+        self.esz.setdefault(reg, 1)
+        self.owned(p, self.scalar, fld, entry=True)
+        return fld, reg
 
     def member_region(self, m):
         p, path = self.member_chain(m)
@@ -734,6 +789,9 @@ class Fn:
                     reg = "@%s.%s" % (bb["referencedDecl"]["name"], fld)
                     it, ic, ie = self.rvalue(b["inner"][1])
                     return ("elem", reg, it, ic + [self.inb(reg, it)], ie, ty)
+            cur = self.cursor_of(n)
+            if cur is not None:
+                return ("scalar", cur[0], "ptr")
             p, path = self.member_chain(n)
             if p is not None:
                 if ty is None:
@@ -787,7 +845,12 @@ class Fn:
                 self.scalar("io_cnt", entry=True)
                 self.region("io_log")
             return
-        if which == "in":
+        if which == "elt":
+            if "io_elt" not in self.regions:
+                self.owned(None, self.region, "io_elt")
+                self.owned(None, self.scalar, "io_epos", entry=True)
+                self.owned(None, self.scalar, "io_enew", entry=True)
+        elif which == "in":
             if "io_in" not in self.regions:
                 self.owner = None
                 self.region("io_in")
@@ -981,6 +1044,22 @@ class Fn:
             tb, cb, eb = self.rvalue(b)
             t, c = self.binop(op, ta, tb, int_width(qt(n)))
             return t, ca + cb + c, ea + eb
+        if k == "CompoundAssignOperator":
+            # compound assignment used as a value: the value is the new (converted) value of the left side, the store is a pending effect
+            lhs_, rhs_ = n["inner"]
+            if ptr_elem(qt(lhs_)) is not None:
+                fail("%s: pointer compound assignment inside an expression" % self.name)
+            lv = self.lvalue(lhs_)
+            if lv[0] != "scalar":
+                fail("%s: compound assignment to a memory cell inside an expression" % self.name)
+            op_ = n["opcode"][:-1]
+            t_, c_, e_ = self.rvalue(rhs_)
+            comp = n.get("computeResultType", {})
+            cty = int_width(comp.get("desugaredQualType", comp.get("qualType", ""))) or int_width(qt(n))
+            lty = int_width(qt(lhs_))
+            v_, c2_ = self.binop(op_, self.conv("s.%s" % lv[1], lty, cty), t_, cty)
+            v_ = self.conv(v_, cty, lty)
+            return v_, c_ + c2_, e_ + [Eff(lv, v_, lv[1])]
         if k == "ConditionalOperator":
             c, cc, ce = self.cond(n["inner"][0])
             self.cond_ctx = getattr(self, "cond_ctx", 0) + 1
@@ -1046,6 +1125,12 @@ class Fn:
                 self.opts["_uses"].add("strcmp")
                 pos = [("0 ≤ %s" % i) for i in (ia, ib) if i != "0"]
                 return "((strcmpC %s %s).getD 0)" % (A, B), ca + cb + pos + ["(strcmpC %s %s).isSome = true" % (A, B)], []
+            if nm in self.opts.get("trap_calls", []):
+                note = "a call of `%s` is not followed: reaching it sets `ub`" % nm
+                if note not in self.notes:
+                    self.notes.append(note)
+                return "0", ["False"], []
+            nm = self.opts.get("call_map", {}).get(nm, nm)
             if nm in self.opts.get("_fns", {}):
                 return self.call_translated(n, nm)
             if nm in self.opts.get("pure_calls", []):
@@ -1158,6 +1243,41 @@ class Fn:
                 return "(if %s then %s else -1)" % (ok, nt), nc + rc + chk, [Eff(("whole", rr), new_reg, rr), Eff(("scalar", "io_pos"), "(if %s then s.io_pos + %s else s.io_pos)" % (ok, nt), "io_pos")]
             if io in ("stdio_fseek", "stdio_fread", "stdio_fwrite", "stdio_ferror"):
                 return self.stdio_call(n, nm, io)
+            if io == "eseek":
+                # Hseek(aid, off, DF_START) on the random-access element: position := off; fails (nothing changes) for a negative offset
+                self.use_io("elt")
+                ot, oc, oe = self.rvalue(n["inner"][2])
+                wt, wc, we = self.rvalue(n["inner"][3])
+                if oe or we or wt != "0":
+                    fail("%s: %s: only side-effect free seeks from DF_START are supported" % (self.name, nm))
+                return "(if 0 ≤ %s then 0 else -1)" % ot, oc, [Eff(("scalar", "io_epos"), "(if 0 ≤ %s then %s else s.io_epos)" % (ot, ot), "io_epos")]
+            if io == "ewrite":
+                # Hwrite(aid, n, ptr) on the random-access (appendable) element: overwrite / extend at the position; returns n
+                self.use_io("elt")
+                nt, nc, ne = self.rvalue(n["inner"][2])
+                rr, ri, rc, re_ = self.pexpr(n["inner"][3])
+                if ne or re_:
+                    fail("%s: side effect in %s arguments" % (self.name, nm))
+                chk = ["(0 : Int) ≤ %s" % nt, "0 ≤ %s ∧ %s + %s ≤ %s.length" % (ri, ri, nt, self.rt(rr)), "0 ≤ s.io_epos"]
+                data = "((%s.drop (Int.toNat (%s))).take (Int.toNat (%s)))" % (self.rt(rr), ri, nt)
+                new_elt = "((s.io_elt.take (Int.toNat s.io_epos)) ++ %s ++ (s.io_elt.drop (Int.toNat (s.io_epos + %s))))" % (data, nt)
+                return nt, nc + rc + chk, [Eff(("whole", "io_elt"), new_elt, "io_elt"), Eff(("scalar", "io_epos"), "(s.io_epos + %s)" % nt, "io_epos"),
+                                           Eff(("scalar", "io_enew"), "0", "io_enew")]
+            if io == "eread":
+                # Hread(aid, n, ptr) on the random-access element: FAIL (-1) on a new element; else k = n, clipped to the bytes left (n = 0: all
+                # the bytes left) are copied to ptr, the position advances by k, the result is k (0 at the end of the element, not a failure)
+                self.use_io("elt")
+                nt, nc, ne = self.rvalue(n["inner"][2])
+                rr, ri, rc, re_ = self.pexpr(n["inner"][3])
+                if ne or re_:
+                    fail("%s: side effect in %s arguments" % (self.name, nm))
+                if rr.startswith("#") or rr.startswith("@"):
+                    fail("%s: %s into a read-only region" % (self.name, nm))
+                kk = "(if (%s : Int) = 0 ∨ %s + s.io_epos > s.io_elt.length then Int.ofNat (Int.toNat (s.io_elt.length - s.io_epos)) else %s)" % (nt, nt, nt)
+                ok = "(s.io_enew = 0)"
+                chk = ["(0 : Int) ≤ %s" % nt, "0 ≤ s.io_epos", "¬%s ∨ (0 ≤ %s ∧ %s + %s ≤ s.%s.length)" % (ok, ri, ri, kk, rr)]
+                new_reg = "(if %s then (s.%s.take (Int.toNat (%s))) ++ ((s.io_elt.drop (Int.toNat s.io_epos)).take (Int.toNat %s)) ++ (s.%s.drop (Int.toNat (%s + %s))) else s.%s)" % (ok, rr, ri, kk, rr, ri, kk, rr)
+                return "(if %s then %s else -1)" % (ok, kk), nc + rc + chk, [Eff(("whole", rr), new_reg, rr), Eff(("scalar", "io_epos"), "(if %s then s.io_epos + %s else s.io_epos)" % (ok, kk), "io_epos")]
             fail("%s: call of %s inside an expression" % (self.name, nm))
         if k == "UnaryExprOrTypeTraitExpr" and n.get("name") == "sizeof":
             at = n.get("argType", {}).get("qualType")
@@ -1307,6 +1427,10 @@ class Fn:
             elif nm in self.aliases:
                 p, path = self.aliases[nm]
                 f = self.owned(p, self.boolf, "%s_%s_null" % (p, "_".join(path)))
+        if k == "BinaryOperator" and n.get("opcode") == "=":
+            l_ = self.skip(n["inner"][0])
+            if l_.get("kind") == "DeclRefExpr" and l_["referencedDecl"]["name"] in self.struct_locals:
+                f = self.owned(l_["referencedDecl"]["name"], self.boolf, "%s_null" % l_["referencedDecl"]["name"])
         if f is None and k == "BinaryOperator" and n.get("opcode") == "=":
             lhs = self.skip(n["inner"][0])
             if lhs.get("kind") == "DeclRefExpr" and lhs["referencedDecl"]["name"] in self.objects:
@@ -1465,6 +1589,8 @@ class Fn:
             # a statement is guarded by the pending return/break/continue flags only when an EARLIER statement of the same block can set one
             out, may_exit = [], False
             for c in n.get("inner", []):
+                if n is getattr(self, "_topbody", None):
+                    self._seg_marks.append((len(out), self.has_loop(c)))
                 if c.get("kind") == "LabelStmt":
                     # the target of the forward gotos: execution resumes here (unless a `return` was executed before)
                     inner_l = self.stmt(c["inner"][-1], ind + ("  " if self.has_ret else ""))
@@ -1492,6 +1618,8 @@ class Fn:
                     if init:
                         fail("%s: initialised local array %s" % (self.name, nm))
                     continue
+                if nm in self.struct_locals:
+                    continue     # a record found by a lookup: entry parameter
                 if nm in self.cursors:
                     if init and not self.is_null(init[0]):
                         out += self.cursor_assign(nm, init[0], ind)
@@ -1728,6 +1856,17 @@ class Fn:
                 if note not in self.notes:
                     self.notes.append(note)
                 return []
+            if sl.get("kind") == "DeclRefExpr" and sl["referencedDecl"]["name"] in self.struct_locals:
+                note = "the record `%s` is the one its lookup finds: an entry parameter (the lookup is not translated)" % sl["referencedDecl"]["name"]
+                if note not in self.notes:
+                    self.notes.append(note)
+                return []
+            if sl.get("kind") == "MemberExpr" and self.cursor_of(sl) is not None:
+                fld, reg = self.cursor_of(sl)
+                r, i, c, e = self.pexpr(rhs)
+                if r != reg:
+                    fail("%s: cursor %s is assigned a pointer into region %s" % (self.name, fld, r))
+                return self.with_effects(c, [(("scalar", fld), i)], e, ind)
             if sl.get("kind") == "DeclRefExpr" and sl["referencedDecl"]["name"] in self.cursors:
                 return self.cursor_assign(sl["referencedDecl"]["name"], rhs, ind)
             if sl.get("kind") == "DeclRefExpr" and sl["referencedDecl"]["name"] in self.alias_locals:
@@ -2190,24 +2329,12 @@ class Fn:
         amap, checks = {}, []      # callee entry field -> Lean term
         back = []                  # (callee field, how to store it back)
         rows = self.opts.get("row_args", {}).get(nm, {})
-        for cp, a in zip(callee.plist, args):
-            fields = [(f, ty) for f, ty, o in callee.entry if o == cp]
-            if cp in callee.structs:
-                r = self.skip(a)
-                if r.get("kind") == "UnaryOperator" and r.get("opcode") == "&":
-                    r = self.skip(r["inner"][0])
-                if r.get("kind") == "MemberExpr":
-                    p0, path0 = self.member_chain(r)
-                elif r.get("kind") == "DeclRefExpr" and r["referencedDecl"]["name"] in self.structs:
-                    p0, path0 = r["referencedDecl"]["name"], []
-                elif r.get("kind") == "DeclRefExpr" and r["referencedDecl"]["name"] in self.aliases:
-                    p0, path0 = self.aliases[r["referencedDecl"]["name"]]
-                else:
-                    p0 = None
-                if p0 is None:
-                    fail("%s: argument of %s for struct parameter %s is not a struct parameter of the caller" % (self.name, nm, cp))
+        def map_struct(cp, p0, path0, fields, looked_up=False):
                 pre = "_".join([p0] + path0)
                 for f, ty in fields:
+                    if looked_up and ty == "Bool" and f == lname(cp) + "_null":
+                        amap[f] = "false"     # the record found by the callee's lookup is the caller's record
+                        continue
                     mine = lname(pre + f[len(lname(cp)):]) if f.startswith(lname(cp) + "_") else None
                     if mine is None:
                         fail("%s: field %s of %s cannot be mapped" % (self.name, f, nm))
@@ -2240,6 +2367,23 @@ class Fn:
                         self.rowsets.append(mine) if mine not in self.rowsets else None
                         amap[f] = "s.%s" % mine
                         back.append((f, ("whole", mine)))
+        for cp, a in zip(callee.plist, args):
+            fields = [(f, ty) for f, ty, o in callee.entry if o == cp]
+            if cp in callee.structs:
+                r = self.skip(a)
+                if r.get("kind") == "UnaryOperator" and r.get("opcode") == "&":
+                    r = self.skip(r["inner"][0])
+                if r.get("kind") == "MemberExpr":
+                    p0, path0 = self.member_chain(r)
+                elif r.get("kind") == "DeclRefExpr" and r["referencedDecl"]["name"] in self.structs:
+                    p0, path0 = r["referencedDecl"]["name"], []
+                elif r.get("kind") == "DeclRefExpr" and r["referencedDecl"]["name"] in self.aliases:
+                    p0, path0 = self.aliases[r["referencedDecl"]["name"]]
+                else:
+                    p0 = None
+                if p0 is None:
+                    fail("%s: argument of %s for struct parameter %s is not a struct parameter of the caller" % (self.name, nm, cp))
+                map_struct(cp, p0, path0, fields)
             elif fields and fields[0][1] == "Int" and len(fields) == 1:
                 tv, cv, ev = self.rvalue(a)
                 if ev:
@@ -2258,7 +2402,17 @@ class Fn:
                 amap[fields[0][0]] = "s.%s" % rr
                 checks += rc
                 back.append((fields[0][0], ("whole", rr)))
-        rest = [(f, ty) for f, ty, o in callee.entry if o not in callee.plist]
+        rest = [(f, ty) for f, ty, o in callee.entry if o not in callee.plist and o not in callee.struct_locals]
+        for sl_ in sorted(callee.struct_locals):
+            fields = [(f, ty) for f, ty, o in callee.entry if o == sl_]
+            if not fields:
+                continue
+            if sl_ not in self.structs:
+                fail("%s: %s works on the record `%s` it looks up; the caller has no record of that name" % (self.name, nm, sl_))
+            note = "`%s` works on the caller's record `%s` (the id passed is the id of that record)" % (nm, sl_)
+            if note not in self.notes:
+                self.notes.append(note)
+            map_struct(sl_, sl_, [], fields, looked_up=True)
         for f, ty in rest:
             # stream regions etc. shared by name
             if f in ("io_in", "io_out"):
@@ -2269,6 +2423,10 @@ class Fn:
                 self.use_io("in")
                 amap[f] = "s.io_pos"
                 back.append((f, ("scalar", "io_pos")))
+            elif f in ("io_elt", "io_epos", "io_enew"):
+                self.use_io("elt")
+                amap[f] = "s.%s" % f
+                back.append((f, ("whole", f) if f == "io_elt" else ("scalar", f)))
             elif f in ("io_res", "io_log", "io_cnt"):
                 self.use_io("stdio")
                 amap[f] = "s.%s" % f
@@ -2285,7 +2443,7 @@ class Fn:
         q_ = getattr(callee, "qual", "")      # a function of another unit (opts['use_units']) is named with its namespace
         self.pre_lines.append("let r%d : %s%s.St := %s%s fuel %s" % (k, q_, nm, q_, nm, " ".join("(%s)" % amap[f] for f in order)))
         for f, how in back:
-            if f not in callee.setters and not (f in ("io_in", "io_out", "io_pos")):
+            if f not in callee.setters and not (f in ("io_in", "io_out", "io_pos", "io_elt", "io_epos", "io_enew")):
                 continue      # the callee never stores into it
             if how[0] == "scalar":
                 self.pre_lines.append(self.upd(how[1], "r%d.%s" % (k, f), ""))
@@ -2305,6 +2463,22 @@ class Fn:
                     and lname(x["referencedDecl"]["name"]) in self.scalars:
                 return lname(x["referencedDecl"]["name"])
         return None
+
+    def has_loop(self, n):
+        """the statement holds a loop or a call of a translated function (the cut points of opts['segments'])"""
+        if n.get("kind") in ("ForStmt", "WhileStmt"):
+            return True
+        if n.get("kind") == "CallExpr":
+            nm = self.skip(n["inner"][0]).get("referencedDecl", {}).get("name")
+            if self.opts.get("call_map", {}).get(nm, nm) in self.opts.get("_fns", {}):
+                return True
+        if n.get("kind") == "DoStmt":
+            c0 = n["inner"][1]
+            while c0.get("kind") in ("ParenExpr", "ImplicitCastExpr", "ConstantExpr"):
+                c0 = c0["inner"][0]
+            if not (c0.get("kind") == "IntegerLiteral" and int(c0["value"]) == 0):
+                return True     # (`do { … } while (0)` is translated as its body, not as a loop)
+        return any(self.has_loop(c) for c in n.get("inner", []))
 
     def can_exit(self, n):
         if n.get("kind") in ("ReturnStmt", "BreakStmt", "ContinueStmt", "GotoStmt"):
@@ -2578,6 +2752,8 @@ class Fn:
             if k == "VarDecl" and ptr_elem(qt(n)) is not None and not re.search(r"\[\d+\]$", base_type(qt(n))):
                 init = [c for c in n.get("inner", []) if c.get("kind")]
                 el_ = ptr_elem(qt(n))
+                if n["name"] in self.struct_locals:
+                    return
                 if self.opts.get("row_structs") and self.row_struct(el_):
                     self.rowptr[n["name"]] = self.row_struct(el_)      # treated like an integer pointer (index in cells)
                 elif int_width(el_) is None and el_ != "void" and (ptr_elem(el_) is None or (self.opts.get("object_calls") and self.is_struct_ptr(el_))):
@@ -2604,6 +2780,8 @@ class Fn:
                     if not self.is_null(n["inner"][1]):
                         alias_assigns.append((l["referencedDecl"]["name"], n["inner"][1]))
                         null_only.discard(l["referencedDecl"]["name"])
+                elif l.get("kind") == "DeclRefExpr" and l["referencedDecl"]["name"] in self.struct_locals:
+                    pass
                 elif l.get("kind") == "DeclRefExpr" and not self.is_null(n["inner"][1]):
                     assigns.append((l["referencedDecl"]["name"], n["inner"][1]))
                     if self.chain_null(n["inner"][1]):
@@ -2879,6 +3057,8 @@ class Fn:
             else:
                 self.structs.add(nm)
         self.owner = None
+        self.struct_locals -= set(self.plist)
+        self.structs |= self.struct_locals
 
         def locals_(n):
             if n.get("kind") == "VarDecl":
@@ -2924,7 +3104,29 @@ class Fn:
         self.scan_flags(body)
         last = body.get("inner", [None])[-1] if body.get("inner") else None
         self.has_ret = any(r is not last for r in self._rets)
+        self._seg_marks = []
+        self._topbody = body if self.opts.get("segments") else None
         lines = self.expand_struct_malloc(self.stmt(body, "  "))
+        segdefs = []
+        if self._topbody is not None and any(hl for _, hl in self._seg_marks):
+            # opts['segments']: the statements before / between / after the top-level statements that hold a loop or a call of a translated
+            # function are definitions of their own (`f.seg0`, `f.seg1`, …; such a statement is a segment by itself), the function is their composition
+            bounds, prev_loop = [], True
+            for start, hl in self._seg_marks:
+                if hl or prev_loop:
+                    bounds.append(start)
+                prev_loop = hl
+            bounds.append(len(lines))
+            newlines = []
+            for k_ in range(len(bounds) - 1):
+                seg = lines[bounds[k_]:bounds[k_ + 1]]
+                if not seg:
+                    continue
+                sn = "%s.seg%d" % (self.name, len(segdefs))
+                segdefs.append("\n".join(["/-- segment %d of `%s`: consecutive top-level statements (a statement that holds a loop or a call of a translated function is a segment by itself) -/" % (len(segdefs), self.name),
+                                          "def %s (fuel : Nat) (s : %s.St) : %s.St :=" % (sn, self.name, self.name)] + seg + ["  s", ""]))
+                newlines.append("  have s : %s.St := %s fuel s" % (self.name, sn))
+            lines = newlines
         if any("@@STRUCT_MALLOC@@" in l for l in self.loops):
             fail("%s: malloc of a struct array inside a loop" % self.name)
         for mname in self.seats:
@@ -2987,7 +3189,7 @@ class Fn:
             st.append("@[reducible] def %s.St.set_%s (s : %s.St) (v : %s) : %s.St := { s with %s := v }" % (self.name, f, self.name, ftype[f], self.name, f))
         if self.setters:
             st.append("")
-        out = st + self.loops
+        out = st + self.loops + segdefs
         doc = "`%s` of `%s`, translated statement by statement" % (self.name, self.opts.get("cfile", "?"))
         if self.ret_region:
             doc += "; the result `ret` is an index into region `%s`" % self.ret_region
@@ -3370,6 +3572,10 @@ def translate_unit(repo, bdir, unit, cfile, fns, opts=None, _want_fns=False):
         fo.update(opts.get("per_fn", {}).get(fn, {}))
         fo["_fns"] = dict(done_fns)
         fo["_incs"], fo["_cpath"] = incs, os.path.join(repo, cfile)
+        var = opts.get("variants", {}).get(fn)
+        if var:
+            fo.update({k_: v_ for k_, v_ in var.items() if k_ != "of"})
+            fo["_name"] = fn
         need = [c_ for c_ in fo.get("unmodelled_cases", []) if c_ not in fo.get("consts", {})]
         if need:
             # the labels of the switch groups to leave out are needed before the first pass (the AST is pruned first)
@@ -3381,9 +3587,11 @@ def translate_unit(repo, bdir, unit, cfile, fns, opts=None, _want_fns=False):
                                       open(os.path.join(repo, cfile), errors="replace").read())
             fo["_frag_notes"] = [fnote]
         else:
-            # opts['c_names']: the symbol the preprocessor makes of the function's name (`#define NC_var_shape H4_NC_var_shape`)
-            ast = clang_ast(os.path.join(repo, cfile), fo.get("c_names", {}).get(fn, fn), incs)
-            ast["name"] = fn
+            # opts['c_names']: the symbol the preprocessor makes of the function's name (`#define NC_var_shape H4_NC_var_shape`);
+            # opts['variants']: the C function a variant is translated from
+            src_fn = var["of"] if var else fn
+            ast = clang_ast(os.path.join(repo, cfile), fo.get("c_names", {}).get(src_fn, src_fn), incs)
+            ast["name"] = src_fn
         f = Fn(ast, unit, fo)
         txt, params = f.translate()
         missing = fo.pop("_missing_consts", None)
